@@ -121,6 +121,18 @@ func c09Monitor(ea time.Duration) func(st *engine.Step) {
 		if o == nil || o.UIDBefore() == "" {
 			return
 		}
+		if st.Pre.Truth.Flags["c09:await-first"] != "" && o.Req.Tag.Kind == "open" {
+			// the first request of a session created by a login that does not fire EventAuth
+			// (registration): nothing has been idle yet - it is served, and from here on it is stamped
+			if p := o.Probe; p == nil || !p.Ran || p.PID != o.UIDBefore() || p.UserPID != o.UIDBefore() {
+				st.Report(engine.Violation{Rule: "C09/live-session-not-served", Attrs: "first-request-after-registration",
+					Detail: fmt.Sprintf("the first request of the session registration created for %q was not served as that user", o.UIDBefore())})
+			}
+			if got, want := o.SessAfter[authboss.SessionLastAction], st.Pre.Now.UTC().Format(time.RFC3339); got != want {
+				st.Report(engine.Violation{Rule: "C09/deadline-not-pushed", Attrs: "first-request-after-registration", Detail: fmt.Sprintf("the first request after registration did not stamp the session: %q, want %q", got, want)})
+			}
+			st.Count(1, "first-request-after-registration")
+		}
 		last, ok := st.Pre.Truth.Times[c09Last]
 		if !ok {
 			return
@@ -261,7 +273,7 @@ func init() {
 			scs := c09Scenarios(tier)
 			return e1Units(append(scs, configVariants(scs[:4], tier, "nil-state", "nomount", "err500", "json")...))
 		},
-		Need:        []string{"live:open", "expired:open", "boundary:open", "live:put", "expired:put", "differential:login", "differential:open"},
+		Need:        []string{"live:open", "expired:open", "boundary:open", "live:put", "expired:put", "differential:login", "differential:open", "first-request-after-registration"},
 		Assumptions: []string{"whole-second clock (the stamp is RFC 3339 with one-second resolution)", "a gap of exactly ExpireAfter is not asserted either way", "only logins that fire EventAuth are in the alphabet (DESIGN.md 7.13)"},
 	})
 }
